@@ -216,7 +216,11 @@ func evalDoc(c *rt.Case) (bool, string, string, error) {
 	case "roundtrip":
 		c06One(c.Doc, os, emit)
 	case "options":
-		c08One(c.Doc, optSet{c.X["base"], optByName(c.X["base"])}, os, nil, emit)
+		var extra any
+		if c.X["probes"] == "circles" {
+			extra = circleProbes
+		}
+		c08One(c.Doc, optSet{c.X["base"], optByName(c.X["base"])}, os, extra, emit)
 	default:
 		return false, "", "", fmt.Errorf("unknown doc op")
 	}
